@@ -37,7 +37,7 @@ META = {
     'components_stub': ['open() and os.path.getsize seen by the file-interception module (delegating proxies)', 'S3 bucket'],
     'budgets': {'quick': {'seconds': 25}, 'thorough': {'seconds': 300}},
     'required_probes': {'thorough': ['size_at_limit', 'size_limit_plus_1', 'size_limit_minus_1', 'content_is_placeholder', 'binary_all_bytes', 'empty_file',
-                                     'limit_from_environment', 'path_by_keyword', 'path_positional', 'read_fault', 'above_limit_not_opened', 'stale_file_at_replay_path', 'explicit_zero_limit', 'more_than_1MiB_below_limit', 'two_threads_one_handler', 'path_is_a_symbolic_link', 'read_fault_in_the_middle_of_the_file', 'same_path_again_same_length_same_mtime', 'two_threads_restore_at_the_same_time']},
+                                     'limit_from_environment', 'path_by_keyword', 'path_positional', 'read_fault', 'above_limit_not_opened', 'stale_file_at_replay_path', 'explicit_zero_limit', 'more_than_1MiB_below_limit', 'two_threads_one_handler', 'path_is_a_symbolic_link', 'read_fault_in_the_middle_of_the_file', 'same_path_again_same_length_same_mtime', 'two_threads_restore_at_the_same_time', 'bare_relative_file_names', 'size_check_fails']},
 }
 
 
@@ -88,11 +88,14 @@ class OsProxy(object):
 
     def __init__(self):
         self.stats = []
+        self.fail_stat_of = None
         proxy = self
 
         class PathProxy(object):
             def getsize(self, p):
                 proxy.stats.append(os.path.basename(str(p)))
+                if proxy.fail_stat_of is not None and os.path.basename(str(p)) == proxy.fail_stat_of:
+                    raise OSError(116, 'injected: Stale file handle')
                 return os.path.getsize(p)
 
             def __getattr__(self, name):
@@ -254,6 +257,7 @@ def _run(tape, clock, scratch, oproxy, osproxy):
     by_keyword = bool(tape.draw(2))
     fault = tape.draw(8) == 7
     twice = tape.draw(3) == 2          # the same paths are intercepted a second time with other bytes of the same length and the same mtime
+    relative = tape.draw(4) == 3       # the service names its files by bare relative names (its working directory is the scratch directory)
     via_link = tape.draw(4) == 3       # the intercepted paths are symbolic links to the files (a blob cache, a "current" link)
     os.environ.pop('PLAYBACK_INTERCEPTED_FILE_SIZE_LIMIT', None)
     if limit_mode == 'arg':
@@ -303,7 +307,11 @@ def _run(tape, clock, scratch, oproxy, osproxy):
     run.say('limit=%s (%d bytes) input file %s (%d bytes) output file %s (%d bytes) path by %s cassette=%s read fault=%s' % (
         limit_mode, limit_bytes, label, len(in_content), label2, len(out_content), 'keyword' if by_keyword else 'position', store.describe(), fault))
     run.ev('case', limit_mode, limit_bytes, label, len(in_content), label2, len(out_content), by_keyword, store.describe(), fault)
+    old_cwd = os.getcwd()
     try:
+        if relative:
+            os.chdir(scratch)
+            run.probe('bare_relative_file_names')
         phase = {'n': 0, 'out_content': out_content}
 
         def build(recorder):
@@ -315,7 +323,7 @@ def _run(tape, clock, scratch, oproxy, osproxy):
                 @recorder.operation()
                 def execute(self):
                     phase['n'] += 1
-                    p_in = os.path.join(scratch, 'in-%d.bin' % phase['n'])
+                    p_in = ('in-%d.bin' % phase['n']) if relative else os.path.join(scratch, 'in-%d.bin' % phase['n'])
                     if by_keyword:
                         got = self.fetch('key1', file_path=p_in)
                     else:
@@ -323,7 +331,7 @@ def _run(tape, clock, scratch, oproxy, osproxy):
                     with builtins.open(got, 'rb') as f:
                         seen['input_bytes'] = f.read()
                     seen['input_path'] = got
-                    p_out = os.path.join(scratch, 'out-%d.bin' % phase['n'])
+                    p_out = ('out-%d.bin' % phase['n']) if relative else os.path.join(scratch, 'out-%d.bin' % phase['n'])
                     if via_link:
                         with builtins.open(p_out + '.target', 'wb') as f:
                             f.write(phase['out_content'])
@@ -380,6 +388,13 @@ def _run(tape, clock, scratch, oproxy, osproxy):
         recorder = TapeRecorder(spy)
         recorder.enable_recording()
         Svc, seen, out_handler = build(recorder)
+        stat_fault = (not fault) and tape.draw(10) == 9
+        if stat_fault:
+            # the size of the file cannot be determined (a transient error of the file system): whatever happens to the
+            # recording, a file above the limit is not read into it
+            osproxy.fail_stat_of = 'in-1.bin'
+            run.probe('size_check_fails')
+            run.fault('file_stat_raises')
         if fault:
             oproxy.fail_read_of = 'in-1.bin'
             oproxy.fail_after = tape.choice([None, 0, 1, len(in_content) // 2, max(0, len(in_content) - 1)])
@@ -388,6 +403,7 @@ def _run(tape, clock, scratch, oproxy, osproxy):
         out = R.call_outcome(lambda: Svc().execute())
         oproxy.fail_read_of = None
         oproxy.fail_after = None
+        osproxy.fail_stat_of = None
         run.check(out.kind == 'return' and out.value == len(in_content) and seen.get('input_bytes') == in_content, 'service_unaffected', 'service-affected',
                   lambda: 'recording changed the service result: %r' % (out,))
         if twice and not fault:
@@ -408,6 +424,9 @@ def _run(tape, clock, scratch, oproxy, osproxy):
             run.check(not saved, 'read_fault_discards_recording', 'saved-after-read-fault', 'the file could not be read but a recording was saved')
             run.nontrivial = True
             return run
+        if stat_fault and not saved:
+            run.nontrivial = True
+            return run          # no recording: fine (what must not happen is a recording holding an above-limit file, checked above)
         if not saved:
             run.violate('saved', 'not-saved', 'recording was not saved: %s' % (spy.calls,))
             return run
@@ -474,5 +493,6 @@ def _run(tape, clock, scratch, oproxy, osproxy):
                 run.check(f.read() == exp_out, 'output_holder_bytes', 'to-file-differs', 'holder.to_file wrote other bytes')
         run.nontrivial = label not in ('ascii', 'random_bytes') or label2 not in ('ascii', 'random_bytes')
     finally:
+        os.chdir(old_cwd)
         store.close()
     return run
